@@ -139,5 +139,6 @@ theorem step_modes (beh : Behaviour) (s : TermState) (vt : VT) (hA : Agree s vt)
       rw [feed_mode vt hg _ 47 0x68 true altBufferBytes_eq (Or.inl ⟨rfl, rfl⟩), setMode_modes]; rfl
     | setSize e => exact absurd hw (by simp [Ev.WF, Op.WF])
     | rawWrite bs => exact absurd hw (by simp [Ev.WF, Op.WF])
+    | input bs => rfl
 
 end Tpp
